@@ -629,6 +629,16 @@ pub fn run_case(case: &Case, std_cfg: bool, trace: bool) -> RunOut {
 struct StormJob {
     waker: Waker,
     spin: u32,
+    /// synchronised start: the helper reports that it holds the job and then
+    /// busy-waits for the task thread's go, so that the wake-up and the task
+    /// thread's next poll start from a common moment (a helper that has to be
+    /// woken from a blocking receive would otherwise always be late)
+    gate: Option<Arc<Gate>>,
+}
+
+struct Gate {
+    ready: std::sync::atomic::AtomicUsize,
+    go: AtomicBool,
 }
 
 struct StormPool {
@@ -648,6 +658,14 @@ impl StormPool {
             let pan = panicked.clone();
             std::thread::spawn(move || {
                 while let Ok(job) = r.recv() {
+                    if let Some(g) = &job.gate {
+                        g.ready.fetch_add(1, Ordering::SeqCst);
+                        let mut n = 0u32;
+                        while !g.go.load(Ordering::SeqCst) && n < 2_000_000 {
+                            std::hint::spin_loop();
+                            n += 1;
+                        }
+                    }
                     for _ in 0..job.spin {
                         std::hint::spin_loop();
                     }
@@ -666,9 +684,9 @@ impl StormPool {
         }
         StormPool { tx, outstanding, panicked }
     }
-    fn send(&self, k: usize, waker: Waker, spin: u32) {
+    fn send(&self, k: usize, waker: Waker, spin: u32, gate: Option<Arc<Gate>>) {
         self.outstanding.fetch_add(1, Ordering::SeqCst);
-        if self.tx[k % self.tx.len()].send(StormJob { waker, spin }).is_err() {
+        if self.tx[k % self.tx.len()].send(StormJob { waker, spin, gate }).is_err() {
             self.outstanding.fetch_sub(1, Ordering::SeqCst);
         }
     }
@@ -723,12 +741,40 @@ impl Exec {
             v
         });
         let n = jobs.len();
+        if n == 0 {
+            return 0;
+        }
+        let gate = Arc::new(Gate { ready: std::sync::atomic::AtomicUsize::new(0), go: AtomicBool::new(false) });
+        let mut gated = [false; 2];
+        let mut ngated = 0usize;
         with_pool(|p| {
             for (i, wk) in jobs.into_iter().enumerate() {
                 let b = bytes();
-                p.send(i + (b & 1) as usize, wk, ((b >> 1) as u32) * 3);
+                let k = (i + (b & 1) as usize) % 2;
+                // the first job of each helper in this batch starts synchronised
+                let g = if !gated[k] {
+                    gated[k] = true;
+                    ngated += 1;
+                    Some(gate.clone())
+                } else {
+                    None
+                };
+                p.send(k, wk, ((b >> 1) as u32) * 2, g);
             }
         });
+        let mut spins = 0u32;
+        while gate.ready.load(Ordering::SeqCst) < ngated && spins < 2_000_000 {
+            std::hint::spin_loop();
+            spins += 1;
+            if spins % 4096 == 0 {
+                std::thread::yield_now();
+            }
+        }
+        gate.go.store(true, Ordering::SeqCst);
+        // the task thread's own offset from the common start
+        for _ in 0..(bytes() as u32) * 2 {
+            std::hint::spin_loop();
+        }
         n
     }
 }
